@@ -458,7 +458,8 @@ def check(ctx):
     # the digest is as order-sensitive as the emission: a digest input that is sorted before hashing must feed a generator step that sorts too
     # (commands and events are emitted in discovery order, structs in sorted/topological order)
     def sorts(fid_prefix):
-        return any((c.name or "").startswith("sort") for k, f in ((k_, P.fns[k_]) for k_ in (P.family(fid_prefix) if fid_prefix in P.fns else [])) if "{promoted" not in k for c in f.calls if c.bb in f.reach_blocks)
+        return any((c.name or "").startswith("sort") or (c.name in ("collect", "from_iter", "insert", "extend", "from") and "BTree" in " ".join(c.generics + [c.path, c.self_ty or ""]))
+                   for k, f in ((k_, P.fns[k_]) for k_ in (P.family(fid_prefix) if fid_prefix in P.fns else [])) if "{promoted" not in k for c in f.calls if c.bb in f.reach_blocks)
     PAIRS = [("hash_commands", "create_command_contexts"), ("hash_events", "create_event_contexts"), ("hash_structs", "create_struct_contexts")]
     for hname, cname in PAIRS:
         hf = [k for k in P.fns if k.endswith("GenerationCache::" + hname)]
